@@ -86,7 +86,20 @@ class StreamingControl(Obligation):
         req = proto(ctx, 'StreamingPullRequest', subscription=StrTok(nsub), ack_ids=Seq(acks, na), modify_deadline_seconds=Seq(secs, ns),
                     modify_deadline_ack_ids=Seq(mids, nm), max_outstanding_messages=S(mom, 'i64'), max_outstanding_bytes=S(mob, 'i64'))
         fn = ctx.free_fn('handle_streaming_pull_request')
-        coro = run_to_end(ip.call_fn(fn, [req, ArcTok(sub, 'Subscription')]))
+        # arguments by parameter type, so that a helper that is handed (say) the receive instant as well is still driven
+        args = []
+        fn.parse()
+        for _, ty in fn.params:
+            if 'StreamingPullRequest' in ty:
+                args.append(req)
+            elif 'Subscription' in ty:
+                args.append(ArcTok(sub, 'Subscription'))
+            elif ty.endswith('Instant'):
+                from models_time import clock_now
+                args.append(clock_now(ip))
+            else:
+                raise Unsupported('handle_streaming_pull_request takes a %s' % ty)
+        coro = run_to_end(ip.call_fn(fn, args))
         res, k = run_async(ip, p, coro, budget=0)
         return {'ret': res, 'log': list(p.log), 'acks': acks, 'na': na, 'mids': mids, 'nm': nm, 'secs': secs, 'ns': ns,
                 'nsub': nsub, 'mob': mob, 'mom': mom}
